@@ -158,6 +158,37 @@ pub fn cases(tier: &str, seed: u64) -> Vec<Case> {
             }
         }
     }
+    // names inside RDATA (the property is observed at Packet::parse: question names, owner names, names
+    // inside RDATA): every name-bearing record type, reference-encoded with pointers in any name -
+    // including the types whose senders must not compress - must decode to the names that were encoded
+    {
+        use crate::gen::{Gen, KIND_NAMES, N_KINDS};
+        use crate::refenc::{self, Compress};
+        use simple_dns::{Packet, ResourceRecord, CLASS, rdata::{RData, NS}};
+        let mut g = Gen::new(seed ^ 0xC06);
+        let mut r2 = Rng::new(seed ^ 0x6C0);
+        refenc::COMPRESS_GATEWAY.store(true, std::sync::atomic::Ordering::Relaxed);
+        let reps = if tier == "thorough" { 300 } else { 12 };
+        for kind in 0..N_KINDS {
+            // IPSECKEY has four gateway shapes, only one of which carries a name
+            for _ in 0..(if KIND_NAMES[kind] == "IPSECKEY" { reps * 8 } else { reps }) {
+                g.share = 7;
+                let rd = g.rdata(kind);
+                if matches!(rd, RData::OPT(_)) { continue; }
+                let first = ResourceRecord::new(g.name(), CLASS::IN, 1, RData::NS(NS(g.name())));
+                let rr = ResourceRecord::new(g.name(), CLASS::IN, 5, rd);
+                let ptxt = format!("P 7 32768 0 0 o0 0 2 {} {} 0 0", text::rr(&first), text::rr(&rr));
+                let (bytes, _) = refenc::encode_packet(&ptxt, Compress::Random(&mut r2, 7), false, None);
+                let bb = bytes.clone();
+                watch(&format!("parse {}", text::hex(&bytes)));
+                let out = guard(move || match Packet::parse(&bb) { Ok(p) => format!("ok {}", text::packet(&p)), Err(_) => "err".to_string() });
+                let mut c = Case::new(format!("parse {}", text::hex(&bytes)), out.clone()).tag("rdata-names").tag(&format!("type:{}", KIND_NAMES[kind]));
+                if out != format!("ok {}", ptxt) { c = c.fail("rdata-name-misread", format!("{}: a name inside the record (or its owner), encoded with RFC 1035 pointers, does not decode to the encoded labels", KIND_NAMES[kind])); }
+                v.push(c);
+            }
+        }
+        refenc::COMPRESS_GATEWAY.store(false, std::sync::atomic::Ordering::Relaxed);
+    }
     let mut r = Rng::new(seed);
     let n = if tier == "thorough" { 400_000 } else { 20_000 };
     for i in 0..n {
